@@ -9,7 +9,7 @@ import os
 from ..common import FAIL, PASS, remove_scratch, run_rule, scratch_dir
 from ..engine import Result
 from ..impl import build, plan_graph_shards, shard_graphs
-from ..spaces import desc, trees, unrelated
+from ..spaces import admissible_pairs, desc, renamed_graph, trees, unrelated
 
 from pytestarch import DiagramRule, Rule  # noqa: E402
 
@@ -40,7 +40,9 @@ def plan(tier, seed):
     else:
         shards = plan_graph_shards("A", n_max=5, chunk=16)
         shards += plan_graph_shards("B", n_max=6, n_min=6, k=2, parts=8)
-    req = ["True/PASS", "True/FAIL", "False/PASS", "False/FAIL", "naming:short", "naming:dotted", "aggregate>1"]
+    shards += [dict(s, naming="selfprefix", bound=s["bound"] + " naming=selfprefix")
+               for s in plan_graph_shards("A", n_max=4, chunk=8 if tier == "quick" else 4)]
+    req = ["True/PASS", "True/FAIL", "False/PASS", "False/FAIL", "naming:short", "naming:dotted", "aggregate>1", "re-applied"]
     return {"shards": shards, "require_nonzero": req}
 
 
@@ -133,13 +135,20 @@ class Files:
         return self.known[h]
 
 
-def check(ns, I, comps, base_mod, arrows, should_only, ev, files, res):
+def check(ns, I, comps, base_mod, arrows, should_only, ev, files, res, decoys=()):
     exp = PASS if conformance(ns, I, comps, arrows, should_only) else FAIL
     outcomes = {}
     # dotted naming
     text = diagram_text(comps, arrows)
     r = DiagramRule(should_only_rule=should_only).from_file(files.path(text)).base_module_included_in_module_names()
     outcomes["dotted"] = run_rule(r, ev)
+    # the same DiagramRule object applied to other architectures first (rule objects are re-usable)
+    for i, d in enumerate(decoys):
+        r2 = DiagramRule(should_only_rule=should_only).from_file(files.path(text)).base_module_included_in_module_names()
+        run_rule(r2, d)
+        outcomes[f"dotted-after-decoy{i}"] = run_rule(r2, ev)
+        if res is not None:
+            res.stats["re-applied"] += 1
     if base_mod is not None:
         short = {c: c[len(base_mod) + 1 :] for c in comps}
         text = diagram_text([short[c] for c in comps], [(short[a], short[b]) for a, b in arrows])
@@ -151,7 +160,7 @@ def check(ns, I, comps, base_mod, arrows, should_only, ev, files, res):
         res.traces += 1
         res.stats[f"{should_only}/{exp}"] += 1
         for k in outcomes:
-            res.stats[f"naming:{k}"] += 1
+            res.stats[f"naming:{k.split('-')[0]}"] += 1
         if I:
             res.nontrivial += 1
     for naming, got in outcomes.items():
@@ -161,6 +170,9 @@ def check(ns, I, comps, base_mod, arrows, should_only, ev, files, res):
             return ("verdict", naming, exp, got[0] + (": " + got[1] if got[1] else ""))
     if "short" in outcomes and outcomes["short"] != outcomes["dotted"]:
         return ("naming-options-differ", "short", outcomes["dotted"][1], outcomes["short"][1])
+    for k, got in outcomes.items():
+        if k.startswith("dotted-after") and got != outcomes["dotted"]:
+            return ("message-differs-after-re-application", k, outcomes["dotted"][1], got[1])
     if exp == FAIL:
         msgs = []
         for rule in generated_rules(comps, arrows, should_only):
@@ -176,18 +188,25 @@ def check(ns, I, comps, base_mod, arrows, should_only, ev, files, res):
     return None
 
 
+def _decoys(ns, seed):
+    """Two other architectures over the same modules: no import at all / every admissible import."""
+    return [build(ns, [], seed), build(ns, admissible_pairs(ns), seed)]
+
+
 def run_shard(shard, tier, seed):
     res = Result(shard["bound"])
     base = scratch_dir(f"c07-{abs(hash(str(shard))) % 10**8}")
     files = Files(base)
     try:
         for ns, I in shard_graphs(shard, seed):
+            ns, I = renamed_graph(ns, I, shard.get("naming", "identity"))
             ev = build(ns, I, seed)
+            dec = _decoys(ns, seed)
             res.states += 1
             for comps, base_mod in component_sets(ns):
                 for arrows in arrow_relations(comps):
                     for so in (True, False):
-                        v = check(ns, I, comps, base_mod, arrows, so, ev, files, res)
+                        v = check(ns, I, comps, base_mod, arrows, so, ev, files, res, dec)
                         if v:
                             res.violation(v[0], {"modules": ns, "imports": I, "components": list(comps), "base": base_mod,
                                                  "arrows": [list(a) for a in arrows], "should_only": so, "naming": v[1], "seed": seed}, v[2], v[3])
@@ -203,7 +222,8 @@ def _check_case(case):
     base = scratch_dir("c07-replay")
     try:
         ev = build(ns, I, case.get("seed", 0))
-        v = check(ns, I, tuple(case["components"]), case["base"], [tuple(a) for a in case["arrows"]], case["should_only"], ev, Files(base), None)
+        v = check(ns, I, tuple(case["components"]), case["base"], [tuple(a) for a in case["arrows"]], case["should_only"], ev, Files(base), None,
+                  _decoys(ns, case.get("seed", 0)))
         return (v[0], v[2], v[3]) if v else None
     finally:
         remove_scratch(base)
